@@ -124,7 +124,8 @@ void XBW::idToStr(uint id, uint *pos, uchar **v, uint cnt) const {
 
 void XBW::subPathSearch(const uchar *qry, const uint ql, uint *left,
                         uint *right) const {
-  if (ql <= 1) {
+  // The empty path (only the root label) matches every node
+  if ((ql == 0) || ((ql == 1) && (qry[0] == 0))) {
     *left = 0;
     *right = nodesCount - 1;
     return;
